@@ -156,48 +156,47 @@ func execJRT(s *Sexp) string {
 	p := jsonInstance()
 	return guard(func() string {
 		switch pos {
-		case "top", "desc":
+		case "enc":
 			var data []byte
 			var err error
 			switch tv := v.(type) {
 			case map[string]interface{}:
 				data, err = p.Marshal(nil, &tv)
-				if err != nil {
-					return "err"
-				}
+			case []interface{}:
+				data, err = p.Marshal(nil, &tv)
+			default:
+				return "bad-op"
+			}
+			if err != nil {
+				return "err"
+			}
+			return "ok " + hx(data)
+		case "top", "desc":
+			data, err := unhx(s.List[3].Atom)
+			if err != nil {
+				return "bad-op"
+			}
+			switch tv := v.(type) {
+			case map[string]interface{}:
 				if pos == "desc" {
 					c, _ := p.CodecForType(reflect.TypeOf(tv))
-					d := c.Descriptor()
-					var out plenccodec.JSONOutput
-					if err := d.Read(&out, data); err != nil {
-						return "err"
-					}
-					return "ok " + hx(out.Done())
+					return descBoth(c, data)
 				}
 				var back map[string]interface{}
 				if err := p.Unmarshal(data, &back); err != nil {
 					return "err"
 				}
-				return "ok " + hx(data) + " " + showJ(back)
+				return "ok " + showJ(back)
 			case []interface{}:
-				data, err = p.Marshal(nil, &tv)
-				if err != nil {
-					return "err"
-				}
 				if pos == "desc" {
 					c, _ := p.CodecForType(reflect.TypeOf(tv))
-					d := c.Descriptor()
-					var out plenccodec.JSONOutput
-					if err := d.Read(&out, data); err != nil {
-						return "err"
-					}
-					return "ok " + hx(out.Done())
+					return descBoth(c, data)
 				}
 				var back []interface{}
 				if err := p.Unmarshal(data, &back); err != nil {
 					return "err"
 				}
-				return "ok " + hx(data) + " " + showJ(back)
+				return "ok " + showJ(back)
 			}
 			return "bad-op top-level must be object or array"
 		case "field", "skip":
@@ -227,6 +226,24 @@ func execJRT(s *Sexp) string {
 		}
 		return "bad-op"
 	})
+}
+
+var lastJRTDescJSON []byte
+
+// descBoth walks the data with the codec's descriptor twice: recording the calls
+// (the comparable output) and rendering JSON (kept for the oracle).
+func descBoth(c plenccodec.Codec, data []byte) string {
+	d := c.Descriptor()
+	var out plenccodec.JSONOutput
+	if err := d.Read(&out, data); err != nil {
+		return "err"
+	}
+	lastJRTDescJSON = append([]byte(nil), out.Done()...)
+	var rec recOut
+	if err := d.Read(&rec, data); err != nil {
+		return "err"
+	}
+	return "ok " + strings.Join(rec.calls, " ")
 }
 
 // ---- generator ----
@@ -303,19 +320,27 @@ func runC16(r *Runner, g *Gen, tier string) string {
 	for i := 0; i < n; i++ {
 		d := 1 + g.r.Intn(5)
 		switch g.r.Intn(5) {
-		case 0:
-			r.Do(L(A("jrt"), A("top"), g.jobj(d)), true, "jrt.top.obj")
-		case 1:
-			r.Do(L(A("jrt"), A("top"), g.jarr(d)), true, "jrt.top.arr")
+		case 0, 1:
+			v := g.jobj(d)
+			if g.r.Bool() {
+				v = g.jarr(d)
+			}
+			enc := execOp(L(A("jrt"), A("enc"), v))
+			if strings.HasPrefix(enc, "ok x") {
+				r.Do(L(A("jrt"), A("top"), v, A(enc[3:])), true, "jrt.top")
+			}
 		case 2:
 			r.Do(L(A("jrt"), A("field"), g.jobj(d), g.jarr(d)), true, "jrt.field")
 		case 3:
 			r.Do(L(A("jrt"), A("skip"), g.jobj(d), g.jarr(d)), true, "jrt.skip")
 		case 4:
+			v := g.jobj(d)
 			if g.r.Bool() {
-				r.Do(L(A("jrt"), A("desc"), g.jobj(d)), true, "jrt.desc")
-			} else {
-				r.Do(L(A("jrt"), A("desc"), g.jarr(d)), true, "jrt.desc")
+				v = g.jarr(d)
+			}
+			enc := execOp(L(A("jrt"), A("enc"), v))
+			if strings.HasPrefix(enc, "ok x") {
+				r.Do(L(A("jrt"), A("desc"), v, A(enc[3:])), true, "jrt.desc")
 			}
 		}
 	}
@@ -376,12 +401,12 @@ func oracleJRT(op *Sexp, res string) []string {
 	f := strings.Fields(res)
 	switch pos {
 	case "top":
-		back, err := parseShownJ(strings.Join(f[2:], " "))
+		back, err := parseShownJ(strings.Join(f[1:], " "))
 		if err != nil {
 			return []string{"unparsable result"}
 		}
 		if !jnormEq(v, back) {
-			return []string{"JSON-any value does not round-trip at top level: got " + strings.Join(f[2:], " ")}
+			return []string{"JSON-any value does not round-trip at top level: got " + strings.Join(f[1:], " ")}
 		}
 	case "skip":
 		if f[1] != "-7" || f[2] != hxs("z") {
@@ -392,7 +417,7 @@ func oracleJRT(op *Sexp, res string) []string {
 			return []string{"fields around a JSON-any field were disturbed: " + res}
 		}
 	case "desc":
-		out, _ := unhx(f[1])
+		out := lastJRTDescJSON
 		if !json.Valid(out) {
 			return []string{fmt.Sprintf("descriptor rendering of JSON-any value is not valid JSON: %q", out)}
 		}
